@@ -94,8 +94,8 @@ def numeral_obligations(V, text, v, a, k, p, negative, name, in_range, obs, tabl
     obs.append(Ob(f'{name}: |mantissa| <= 1000', 1000 - absM, [1000], rel='ge'))
     obs.append(Ob(f'{name}: fraction digits fit their width', ten(pp) - 1 - pr['post'], [ten(pp)], rel='ge'))
     obs.append(Ob(f'{name}: fraction digits non-negative', pr['post'], [1], rel='ge'))
-    obs.append(Ob(f'{name}: within half a unit of digit {p} (upper)', unit * F(1, 2) + slack - (den - v) if V.sym else unit * 0.5 + slack - (den - v), [unit], rel='ge'))
-    obs.append(Ob(f'{name}: within half a unit of digit {p} (lower)', unit * F(1, 2) + slack - (v - den) if V.sym else unit * 0.5 + slack - (v - den), [unit], rel='ge'))
+    obs.append(Ob(f'{name}: within half a unit of digit {p} (upper)', unit * F(1, 2) + slack - (den - v) if V.sym else unit * 0.5 + slack - (den - v), [unit], rel='ge', local=True))
+    obs.append(Ob(f'{name}: within half a unit of digit {p} (lower)', unit * F(1, 2) + slack - (v - den) if V.sym else unit * 0.5 + slack - (v - den), [unit], rel='ge', local=True))
     return pr
 
 
